@@ -90,6 +90,10 @@ class Unsupported(Exception): pass
 EXTERNAL_CONSTS = {}     # constants of dependencies that the code under test uses (filled below)
 
 _NORM = re.compile(r'\b[a-z_][a-z0-9_]*::(?=[A-Za-z_{]|<impl (?:str|bool|char|u8|usize|\\?\[))')
+def coro_key(ty):
+    """coroutine type name with module paths and lifetimes dropped (the two MIR dumps and call sites qualify differently)"""
+    return re.sub(r"<('\w+(, )?)+>", '', re.sub(r'\b[a-z_][a-z_0-9]*::', '', ty)).replace(' ', '')
+
 def norm_path(c):
     """drop module-path segments (`std::option::Option` -> `Option`): the two MIR dumps qualify paths differently"""
     prev = None
@@ -604,6 +608,8 @@ class Engine:
                 span = path[len('{closure@'):-1]
                 if names is not None: ops = ops + self.elided_captures(span, len(ops), fr, where)
                 return ClosureV(span, Agg(ops))
+            if path.startswith('{coroutine@'):      # creation of an async fn / async block state: initial variant, captured up-vars in declaration order
+                v = CoroV(BV(0, 8), {}, ops); v.names = names; v.span = path; return v
             segs = [s for s in strip_generics(path).split('::') if s]
             enums = self.mir.enums
             if len(segs) >= 2 and enums.get(segs[-2]) and segs[-1] in enums[segs[-2]]:
@@ -757,6 +763,17 @@ class Engine:
         for pat, fnm in self.cfg.get('stubs', []):      # per-harness environment stubs (in-crate code treated as environment; listed in the evidence)
             if pat.fullmatch(callee):
                 self.models_used.add('stub:' + fnm.__name__); return fnm(self, callee, argv, g)
+        pm = re.fullmatch(r'<\{async (fn body of|block@)(.*)\} as .*Future>::poll', callee)
+        if pm:      # polling an in-crate coroutine: its body is the `{closure#k}` whose first parameter is Pin<&mut this coroutine type>
+            if not hasattr(self.mir, 'coro_bodies'):
+                tab = {}
+                for n, t in self.mir.fn_text.items():
+                    hm = re.match(r'fn .+?\(_1: Pin<&mut (\{async .*?\})>, _2: ', t)
+                    if hm: tab.setdefault(coro_key(hm.group(1)), []).append(n)
+                self.mir.coro_bodies = tab
+            cands = self.mir.coro_bodies.get(coro_key('{async ' + pm.group(1) + pm.group(2) + '}'), [])
+            if len(cands) != 1: raise Unsupported('coroutine body not found for ' + callee)
+            return self.call(cands[0], argv, g)
         name = self.lookup_callee(callee)
         if name is not None and not (name in self.mir.derived and name.endswith(('::clone', '::eq', '::ne'))):
             return self.call(name, argv, g)     # in-crate code is executed from its own MIR
